@@ -193,7 +193,10 @@ IMAGES = [("blob", 0), ("blob", 1), ("blob", 2), ("edge",), ("noise", 0), ("nois
 def w_radon_images(item, seed=0, quick=True):
     N = item
     t = Tally()
-    for aname, theta in angle_sets(quick, N):
+    sets = angle_sets(quick, N)
+    if N in (5, 8):
+        sets = sets + [(f"n{n}", many_angles(n)) for n in ((256, 257) if quick else (64, 65, 128, 129, 256, 257, 512, 513))]
+    for aname, theta in sets:
         for batch in (1, 2, 3):
             check_radon_case(t, N, aname, theta, IMAGES, seed, batch=batch)
     # linearity on seeded pairs
@@ -273,10 +276,19 @@ def w_iradon_basis(item, seed=0, quick=True):
     return t
 
 
+def many_angles(n):
+    """n equally spaced angles in [0, 180): the NUMBER of projections is a dimension of its own (block sizes)."""
+    return [180.0 * k / n for k in range(n)]
+
+
 def w_iradon_images(item, seed=0, quick=True):
     N, f = item
     t = Tally()
     sets = [("grid15", GRID15[:-1]), ("irregular", IRREG), ("single", [30.0])]
+    if N in (5, 8, 22):
+        # angle counts straddling powers of two (a block-wise implementation shows at its block size only)
+        for n in (255, 256, 257) if quick else (63, 64, 65, 127, 128, 129, 255, 256, 257, 511, 512, 513, 600):
+            sets.append((f"n{n}", many_angles(n)))
     if not quick:
         sets.append(("step1", [float(a) for a in range(0, 180)]))
     descs = [("snoise", 0), ("snoise", 1), ("sradon", ("edge",)), ("sradon", ("blob", 1))]
